@@ -847,7 +847,7 @@ func gen(c *vh.Ctx) {
 						n := int64(40 + c.Intn(40))
 						if b == 1000 {
 							n = int64(150 + c.Intn(250))
-							if f == m {
+							if f == m && f > 1 {
 								n = int64(1001 + c.Intn(600))
 							}
 						}
@@ -943,7 +943,7 @@ func replay(c *vh.Ctx, raw json.RawMessage) {
 		return
 	}
 	// a concurrency failure may need several attempts
-	for i := 0; i < 3 && c.NumViolations() == 0; i++ {
+	for i := 0; i < 2 && c.NumViolations() == 0; i++ {
 		runCase(c, &sc, "case")
 	}
 }
